@@ -51,6 +51,10 @@ fn main() {
     let code = match id {
         "C01" => props::c01::run(tier),
         "C02" => props::c01::run_c02(tier),
+        "C03" => props::c03::run(tier),
+        "C04" => props::c04::run_c04(tier),
+        "C05" => props::c04::run_c05(tier),
+        "C06" => props::c06::run(tier),
         _ => {
             eprintln!("unknown property {}", id);
             2
